@@ -309,37 +309,48 @@ fn extract_source_map<R: Read>(
     comments: &SwcComments,
     file_reader: &impl FileReader<R>,
 ) -> OriginalSourceMap {
-    let mut source_map_comment = None;
-    let mut source: Option<SourceMap> = None;
+    // the reference of a file is the LAST such comment of its text. The comment store is a hash
+    // map: its iteration order says nothing about positions
+    let mut reference: Option<(swc_common::BytePos, String)> = None;
     for trailing in comments.trailing.iter() {
         for comment in trailing.iter() {
-            let trim_comment = comment.text.trim();
-            if trim_comment.starts_with(SOURCE_MAP_URL) {
-                source_map_comment = Some(String::from(comment.text.as_str()));
-                let url = trim_comment.get(SOURCE_MAP_URL.len()..).unwrap();
-                source = decode_data_url(url)
-                    .map_err(Error::new)
-                    .or_else(|_| {
-                        let source_path = PathBuf::from(url);
-                        let final_path = if source_path.is_absolute() {
-                            source_path
-                        } else {
-                            // a file name without a directory ("" or "/") has no parent
-                            match file_reader.parent(Path::new(file_path)) {
-                                Some(folder) => folder.join(source_path),
-                                None => source_path,
-                            }
-                        };
-
-                        decode(file_reader.read(&final_path)?)
-                    })
-                    .ok()
-                    .and_then(|it| match it {
-                        DecodedMap::Regular(source) => Some(source),
-                        _ => None,
-                    });
+            if comment.text.trim().starts_with(SOURCE_MAP_URL)
+                && reference
+                    .as_ref()
+                    .map_or(true, |(lo, _)| comment.span.lo > *lo)
+            {
+                reference = Some((comment.span.lo, String::from(comment.text.as_str())));
             }
         }
+    }
+
+    let mut source_map_comment = None;
+    let mut source: Option<SourceMap> = None;
+    if let Some((_, text)) = reference {
+        let trim_comment = text.trim();
+        let url = trim_comment.get(SOURCE_MAP_URL.len()..).unwrap();
+        source = decode_data_url(url)
+            .map_err(Error::new)
+            .or_else(|_| {
+                let source_path = PathBuf::from(url);
+                let final_path = if source_path.is_absolute() {
+                    source_path
+                } else {
+                    // a file name without a directory ("" or "/") has no parent
+                    match file_reader.parent(Path::new(file_path)) {
+                        Some(folder) => folder.join(source_path),
+                        None => source_path,
+                    }
+                };
+
+                decode(file_reader.read(&final_path)?)
+            })
+            .ok()
+            .and_then(|it| match it {
+                DecodedMap::Regular(source) => Some(source),
+                _ => None,
+            });
+        source_map_comment = Some(text);
     }
 
     OriginalSourceMap {
